@@ -14,7 +14,7 @@ Require Import TLRun.GenRoutineProgs.
 Theorem RAX_mar_agree : progs_agree_dir DM translated = true.
 Proof. vm_compute. reflexivity. Qed.
 
-Theorem RAX_mar_src : forall rt E n t x h, head_of E t = Some h -> guard_m rt E (mar rt E n) t x = true ->
+Theorem RAX_mar_src : forall rt E n t x h, head_of E t = Some h ->
   run rt E (mar rt E n) t (src_prog translated DM h) x = mar rt E (S n) t x.
 Proof. intros rt E. exact (mar_step_src rt E translated RAX_mar_agree). Qed.
 
@@ -22,9 +22,9 @@ Proof. intros rt E. exact (mar_step_src rt E translated RAX_mar_agree). Qed.
 Theorem RAX_mar_iterable_src : forall rt E n k a x,
   run rt E (mar rt E n) (TSeq k a) (src_prog translated DM HIterable) x = mar rt E (S n) (TSeq k a) x.
 Proof. intros. rewrite (src_prog_expected_dir _ DM HIterable RAX_mar_agree). apply mar_iterable. Qed.
-Theorem RAX_mar_mapping_src : forall rt E n k kt vt x, guard_m rt E (mar rt E n) (TMap k kt vt) x = true ->
+Theorem RAX_mar_mapping_src : forall rt E n k kt vt x,
   run rt E (mar rt E n) (TMap k kt vt) (src_prog translated DM HMapping) x = mar rt E (S n) (TMap k kt vt) x.
-Proof. intros. rewrite (src_prog_expected_dir _ DM HMapping RAX_mar_agree). apply mar_mapping; assumption. Qed.
+Proof. intros. rewrite (src_prog_expected_dir _ DM HMapping RAX_mar_agree). apply mar_mapping. Qed.
 Theorem RAX_mar_tuple_src : forall rt E n ts x,
   run rt E (mar rt E n) (TTuple ts) (src_prog translated DM HTuple) x = mar rt E (S n) (TTuple ts) x.
 Proof. intros. rewrite (src_prog_expected_dir _ DM HTuple RAX_mar_agree). apply mar_tuple. Qed.
